@@ -58,6 +58,18 @@ impl Config {
 
         add_project(root_project_dir.clone(), &mut projects)?;
 
+        let mut project_names = projects
+            .values()
+            .filter_map(|project| project.name.as_ref())
+            .collect::<Vec<_>>();
+        project_names.sort();
+        if let Some(duplicates) = project_names.windows(2).find(|names| names[0] == names[1]) {
+            return Err(anyhow!(
+                "Two projects cannot have the same name: {}",
+                duplicates[0]
+            ));
+        }
+
         Ok(Self {
             root_project_dir,
             projects,
